@@ -248,7 +248,16 @@ def _copy(stg, c, tmp, R):
         elif route == 'noise':
             fr = base
         elif route == 'from_data':
-            fr = stg.Frame.from_data(kw['df'], kw['dt'], kw['fch1'], c['asc'], rng.normal(size=(T, F)), metadata={'a': {'b': 1}}, seed=c['seed'])
+            src_arr = rng.normal(size=(T, F))
+            src_copy = src_arr.copy()
+            fr = stg.Frame.from_data(kw['df'], kw['dt'], kw['fch1'], c['asc'], src_arr, metadata={'a': {'b': 1}}, seed=c['seed'])
+            # the same calls on a second frame built from the SAME caller array with the same seed give the same frame: the first
+            # frame's operations did not reach the array they were both built from
+            n_first = fr.add_noise(4.0, 1.0, noise_type='gaussian')
+            fr_b = stg.Frame.from_data(kw['df'], kw['dt'], kw['fch1'], c['asc'], src_arr, metadata={'a': {'b': 1}}, seed=c['seed'])
+            n_second = fr_b.add_noise(4.0, 1.0, noise_type='gaussian')
+            R.check(np.array_equal(src_arr, src_copy), 'frame-operations-changed-the-array-the-frame-was-built-from')
+            R.check(np.array_equal(n_first, n_second) and np.array_equal(fr.data, fr_b.data), 'two-identical-builds-from-one-array-differ')
         elif route in ('loaded_fil', 'loaded_h5', 'sliced_loaded'):
             p = os.path.join(tmp, 'x.h5' if route == 'loaded_h5' else 'x.fil')
             (base.save_h5 if route == 'loaded_h5' else base.save_fil)(p)
